@@ -268,7 +268,9 @@ func submitTimeOK(c *Ctx, h *ssa.Function, v *ir.Expr) bool {
 			continue
 		}
 		// the wall-clock default: accepted here only because C01 proves it unreachable for valid messages
-		if !a.Any(func(x *ir.Expr) bool { return x.Op == "call" && strings.HasPrefix(x.Name, "time.Now") }) {
+		if !a.Any(func(x *ir.Expr) bool {
+			return x.Op == "call" && strings.HasPrefix(x.Name, "time.Now") || len(x.Args) == 0 && strings.HasSuffix(x.String(), "time.Now()")
+		}) {
 			return false
 		}
 	}
@@ -892,7 +894,13 @@ func prunePairing(c *Ctx, rm recMod) {
 				}
 				return false
 			}
-			r.Require(w.FlatPrecedesM(f, isDlStep, isDec, nil), "A3.prune-pairing", rm.M+"|count-1 needs delete|"+fn(f), w.Pos(f.Pos()), "the in-state count is decremented only after a record was deleted", "a path decrements without deleting")
+			// ... and so is the inlined form of that helper: the delete skipped on the edge where the record key is absent
+			absent := func(p ir.Pred) bool {
+				return !p.Pol && p.E.Op == "call" && strings.HasSuffix(p.E.Name, ".Has") && len(p.E.Args) == 2 && w.SectionOfKey(p.E.Args[1]) == rm.SecRec
+			}
+			cutAbsent := &ir.FlatCut{Matcher: absent, Depth: 2, Barrier: func(_ *ir.FCtx, in ssa.Instruction) bool { return isDlStep(in) && !isDec(in) }}
+			precedes := w.FlatReaches(w.FlatRoot(f), nil, cutAbsent, func(p ir.FPos) bool { return isDec(p.In) }) == nil
+			r.Require(precedes, "A3.prune-pairing", rm.M+"|count-1 needs delete|"+fn(f), w.Pos(f.Pos()), "the in-state count is decremented only after a record was deleted", "a path decrements without deleting")
 			// and only when count > limit
 			un := w.FlatGuarded(f, isDec, func(p ir.Pred) bool {
 				return cmpIs(p, ">", func(a *ir.Expr) bool { return a.Any(func(z *ir.Expr) bool { return z.Op == "field" && z.Name == rm.Count }) }, func(b *ir.Expr) bool {
